@@ -47,6 +47,29 @@ CLAIMED["C09"] = (
     "DESIGN.md section 2, C09",
 )
 
+CLAIMED["C15"] = (
+    "access-path read-set analysis (cache key completeness), who-may-write inventories, effect analysis of shared cached results, path rule on the context manager",
+    "Static: everything the cached fuse plan depends on is shown to be hashed into its key (Reads subset of Covers, block values "
+    "in neither), memoised hashes cannot go stale, no consumer mutates a cached result, memoised helpers read no re-assignable "
+    "state, the default-mode context manager restores in a finally from a value saved before the overwrite, and module level "
+    "mutable state and its writers equal a confirmed inventory. These are the history-dependence mechanisms visible in the code; "
+    "they hold for every history because they are facts about all paths.",
+    "No schedule or interleaving is explored: the thread clause is covered only structurally (shared-state inventory + C14's "
+    "no-operand-writes). Assumes SHA-1/pickle keys do not collide and that pickling a bound method pickles its object.",
+    "DESIGN.md section 2, C15",
+)
+CLAIMED["C20"] = (
+    "interprocedural provenance (def-use) analysis of allocation dtypes; cast inventory against a confirmed table",
+    "Static: every allocation of array data in the package receives its dtype from an existing block (like=<block> on the "
+    "ar.do path, dtype=<block>.dtype, or a **kwargs dict whose dtype entry is traced to a block through parameters over all "
+    "call sites); cast-like constructs occur only at confirmed sites; dtype/backend witnesses are read off a stored block. "
+    "This is where an element type can be lost by construction (zero blocks joining data, slice assignment into a default-dtype "
+    "buffer).",
+    "Does not decide type promotion inside backend arithmetic, nor the dtype of python-scalar results of empty contractions. "
+    "Assumes autoray's like= injection on the ar.do path.",
+    "DESIGN.md section 2, C20",
+)
+
 PENDING = "check not built yet (construction in progress; see DESIGN.md section 2 for the planned static rule)"
 NOT_APPLICABLE = {
     "C07": "reshape content preservation and the axis-matching routine are arithmetic over runtime shapes; no clause is a "
